@@ -72,6 +72,21 @@ func cmdSigs(args []string) {
 	}
 	out := map[string]map[string][]string{}
 	for _, b := range blocks {
+		if b.Kind == "operator" {
+			if fn := w.allFuncs(b.Pkg)[b.Name]; fn != nil {
+				scope := map[string]bool{}
+				for _, n := range availFor(fn) {
+					if n != "" && n != "_" {
+						scope[n] = true
+					}
+				}
+				if out[b.File] == nil {
+					out[b.File] = map[string][]string{}
+				}
+				out[b.File]["operator "+b.Name+"#scope"] = sortedStrs(scope)
+			}
+			continue
+		}
 		if b.Kind != "func" {
 			continue
 		}
@@ -92,6 +107,15 @@ func cmdSigs(args []string) {
 			out[b.File] = map[string][]string{}
 		}
 		out[b.File][b.Name] = names
+		// every identifier that exists around the function when the contract is written: a later renaming shows as the
+		// one name that is not in this list
+		scope := map[string]bool{}
+		for _, n := range availFor(fn) {
+			if n != "" && n != "_" {
+				scope[n] = true
+			}
+		}
+		out[b.File][b.Name+"#scope"] = sortedStrs(scope)
 		if fn.Parent() != nil {
 			out[b.File][b.Name+"#calls"] = callFingerprint(fn)
 			var ps []string
